@@ -237,7 +237,7 @@ private:
 
     long get_offset( std::ptrdiff_t pos )
     {
-        if( this->_info._height > 0 )
+        if( !this->_info._top_down )
         {
             // the image is upside down
             return static_cast<long>( ( this->_info._offset
